@@ -65,6 +65,8 @@ def run(ctx):
     sysm = systematic() + [r for _, r in pairwise(types=["string"])]
     cases = build_cases(ctx, len(sysm) + n, ["string"], CLASSES | {"type", "null-not-allowed", "required"}, "c06x",
                         gen_kwargs={"allow_formats": False}, extra_schemas=sysm, docs_per=2 if ctx.tier == "quick" else 4)
+    from vlib.overlay import overlay_cases
+    cases = cases + overlay_cases("string", "c06")
     run_cases(ctx, cases, "c06")
     evaluate(ctx, cases, CLASSES, {"string": "invalid", "string-valid": "valid", "optional-absent": "by-spec", "null-allowed": "valid", "valid": "valid"},
              "string constraints")
